@@ -154,7 +154,8 @@ CHECKS = {
          "(after a directory or after a link to '.', followed by a file below the link) and with read-only commands; every system call is replayed "
          "on FsModel: its outcome must equal the kernel's, and Confined / NoEarlyDanger / O_EXCL-only / ReadOnly are evaluated "
          "after each call. Every raw path extended header of up to 3 (thorough: 4) tokens over {.., ., a, NUL, 0xFF, /, \\} is "
-         "extracted as a directory entry with recorded permissions and time and as a file entry.",
+         "extracted as a directory entry with recorded permissions and time and as a file entry; entries whose stored name is empty or made "
+         "of separators and dots (the output path is the extraction directory itself) as link, directory and file, with and without w=.",
     design_ref="DESIGN.md section 5, C10",
     note="Precondition of the statement: no symbolic links to directories in the initial tree. One known finding is recorded "
          "(known_findings.json) and reported as KNOWN-FINDING; any other escape is a violation.",
@@ -171,7 +172,10 @@ CHECKS = {
          "hostile archives (names of any length, hostile wildcard arguments) go through the list commands as well. "
          "Cli.tla defines all of stdout of t / x / e / p and the dry runs (progress bar, verdict lines, symlink lines, banners, EXTRACT / "
          "VERIFY lines, option parsing incl. q0..q2, i, v, n, w=, wildcards): archives whose every path component and link target is "
-         "decorated with escape, bell, CSI, DEL, CR, LF, TAB and high bytes are run in every mode and stdout must equal Cli!Output.",
+         "decorated with escape, bell, CSI, DEL, CR, LF, TAB and high bytes are run in every mode and stdout must equal Cli!Output. Failure "
+         "paths that name a path: a file in the way of a directory, components too long for the file system, symbolic links that cannot "
+         "be created (name too long, empty target, a directory of that name extracted just before), a directory after a file of its name; "
+         "hostile bytes at the far end of paths, names and targets of 260 .. 4100 bytes.",
     design_ref="DESIGN.md section 5, C18",
     note="File data printed by `p` is kept ASCII so that all output can be checked. Found and fixed: raw method column "
          "(known_findings.json).",
@@ -189,7 +193,10 @@ CHECKS = {
          "archives, for each of l/lv/v/vv with quiet levels, wildcard lists and several `now`/mtime values, stdout must equal "
          "the rendering byte for byte. Row selection is bound exhaustively: every wildcard pattern of up to 3 (thorough: 4) characters "
          "over {*, ?, a, b}, samples of longer ones and of two-pattern lists, against members named by every string of up to 3 characters "
-         "over {a, b, ?, *}, through lq2 / l / vq2 (Cli!MainOutput).",
+         "over {a, b, ?, *}, through lq2 / l / vq2 (Cli!MainOutput). For generated archives the record behind every row must be Header!Parse of "
+         "the member's bytes (Trace_List!RecordIsParse), so rows are checked against the archive and not against what the library says it "
+         "contains; packed / original pairs include ratios on the edge of the printed precision (exact ties, pairs sensitive to the order of "
+         "the single-precision operations).",
     design_ref="DESIGN.md section 5, C19",
     note="TZ=UTC; `now` via TEST_NOW_TIME. The ratio digits come from a float32 emulation in the harness (not TLA+). Header records "
          "are those the library returns.",
@@ -269,7 +276,10 @@ CHECKS = {
          "the MacBinary pass-through, -pm1- members that really are endless with declared lengths 0..20000, declared lengths 0 and 1 in "
          "front of real streams of every method) and mutated archives, through all five stream kinds, under a "
          "deterministic step budget; every call's result is validated against Reader.tla and the trace spec evaluates on every "
-         "call: callback calls <= 2*len+64*ops+256, bytes requested <= 3*len+out+(1MiB+8K)*ops+64K, peak heap <= 8 MiB+2*len.",
+         "call: callback calls <= 2*len+64*ops+256, bytes requested <= 3*len+out+(1MiB+8K)*ops+64K, peak heap <= 8 MiB+2*len. Sources that "
+         "fail for good after k callbacks (read: -1, skip: 0) must still let every call return. The tool: the overwrite prompt with "
+         "every sequence of up to two answers and with input that stops at or inside an answer, run under CPU and output limits "
+         "(TreeModel!Ask: end of input at the prompt ends the tool).",
     design_ref="DESIGN.md section 5, C13",
     note="Work is measured in source callback calls/bytes for callback streams; FILE/pipe streams are covered by termination only. "
          "Found and fixed: endless loop in lha_input_stream_skip (known_findings.json).",
@@ -309,7 +319,9 @@ CHECKS = {
          "equal the model's. Two readers over two archives run interleaved call by call, nested (reader B advanced from inside "
          "reader A's progress callback, i.e. in the middle of A's decoding loop; what A's extraction wrote must be A's member), on "
          "two threads, and on two threads under ThreadSanitizer (a data race is an event no action of the model matches); each "
-         "reader's trace is validated on its own.",
+         "reader's trace is validated on its own. Deterministic families: dangerous links of different and equal path lengths in every order "
+         "of arrival, directories and deferred links pending at once when the input ends, the directory policy switched in the middle "
+         "of the archive (and the archive abandoned right there), directory entries that record no metadata.",
     design_ref="DESIGN.md section 5, C15",
     note="Trusted: TLC/SANY/CommunityModules, clang+ASan, the generator's ground truth (archive layout and member contents). "
          "Concurrency (two readers on two threads) is observed (per-reader traces, ThreadSanitizer as event source), not explored.",
@@ -328,7 +340,9 @@ CHECKS = {
          "the model does from that state, every free must release a live block, header reference counts must equal the "
          "model's owners, and nothing may be live after lha_reader_free + lha_input_stream_free. TLC additionally checks the "
          "ownership invariants in the bounded model with Free enabled in every state and one injected failure anywhere, and "
-         "that the unrepaired release logic (FIXED = FALSE) violates them (vacuity guard).",
+         "that the unrepaired release logic (FIXED = FALSE) violates them (vacuity guard). Histories also contain extractions that fail for "
+         "reasons of the file system (the placeholder of a dangerous link below a directory never extracted) and switches of the directory "
+         "policy while directories are pending.",
     design_ref="DESIGN.md section 5, C20",
     note="Trusted: the interposition shim (libc-internal allocations are not seen), TLC, clang+ASan. Found and fixed: three "
          "defects (known_findings.json).",
